@@ -537,3 +537,13 @@ def R_argname(toks):
         if out[i].text == "_" and out[i+1].text == ":" and out[i-1].text in ("(", ","):
             out[i] = Tok("ident", "_arg", out[i].pre, line=out[i].line); n += 1
     return out, n
+
+
+def R_closurearg(toks):
+    """a closure's wildcard parameter `|_|` becomes `|_e|` (same meaning in Rust: the argument is ignored; Verus 0.2026.09.13
+    rejects `_` as a closure parameter)."""
+    out = list(toks); n = 0
+    for i in range(1, len(out) - 1):
+        if out[i].text == "_" and out[i-1].text == "|" and out[i+1].text == "|":
+            out[i] = Tok("ident", "_e", out[i].pre, line=out[i].line); n += 1
+    return out, n
